@@ -58,7 +58,8 @@ func c13InterpRun(r *interp.Runner, ctx context.Context, node syntax.Node) error
 }
 
 // VerifC13: task with before b0, commands c0 c1 (nv variations), after a0; timeout present iff withTimeout.
-func VerifC13(withTimeout, nv int) {
+// withCond = 1 adds a task condition (evaluated first; it carries the timeout as well).
+func VerifC13(withTimeout, nv, withCond int) {
 	vInstallExecStubs()
 	rt.SymbolicTime()
 	rt.Redirect("(*mvdan.cc/sh/v3/interp.Runner).Run", c13InterpRun)
@@ -66,6 +67,9 @@ func VerifC13(withTimeout, nv int) {
 	c13Calls = nil
 	c13LastFinish = rt.Now()
 	def := &taskDefinition{Name: "tk", Command: []string{"c0", "c1"}, Before: []string{"b0"}, After: []string{"a0"}}
+	if withCond == 1 {
+		def.Condition = "cond"
+	}
 	def.AllowFailure = rt.Bool("allow_failure")
 	c13Timeout = 0
 	if withTimeout == 1 {
@@ -85,6 +89,9 @@ func VerifC13(withTimeout, nv int) {
 
 	// reference: b0, then per variation c0 c1, then a0
 	var order []string
+	if withCond == 1 {
+		order = append(order, "cond")
+	}
 	order = append(order, "b0")
 	vars := nv
 	if vars == 0 {
@@ -94,7 +101,7 @@ func VerifC13(withTimeout, nv int) {
 		order = append(order, "c0", "c1")
 	}
 	order = append(order, "a0")
-	mustFail, overran := false, false
+	mustFail, overran, skippedByCond := false, false, false
 	i := 0
 	for ; i < len(order); i++ {
 		if i >= len(c13Calls) {
@@ -112,6 +119,16 @@ func VerifC13(withTimeout, nv int) {
 		if c.Overran {
 			overran = true
 			rt.Cover("C13.a-command-overran")
+		}
+		if order[i] == "cond" && c.Failed {
+			// a condition that exits non-zero skips the task (no error); one that overruns fails it
+			if c.Overran {
+				mustFail = true
+			} else {
+				skippedByCond = true
+			}
+			i++
+			break
 		}
 		if c.Failed && !isAfter {
 			if order[i] == "b0" || c.Overran || !t.AllowFailure {
@@ -133,7 +150,10 @@ func VerifC13(withTimeout, nv int) {
 		rt.Cover("C13.after-hook-overran")
 		rt.Assert(runErr == nil, "C13.overrunning-after-hook-does-not-fail-the-task")
 	}
-	if !overran && !mustFail {
+	if !overran && !mustFail && !skippedByCond {
 		rt.Cover("C13.within-deadline-unaffected")
+	}
+	if skippedByCond {
+		rt.Assert(t.Skipped, "C13.condition-within-deadline-skips-as-usual")
 	}
 }
